@@ -60,6 +60,21 @@ func genName(t *rapid.T, odd bool) string {
 func genActs(t *rapid.T, odd bool) Case {
 	n := rapid.IntRange(3, 20).Draw(t, "n")
 	c := Case{}
+	if !odd && rapid.IntRange(0, 2).Draw(t, "pending-recovery-scenario") == 0 {
+		// aimed prefix: a catalogue record that carries a pending recovery shard (restore broken half way) when the node restarts or
+		// reconciles, optionally with another table deleted meanwhile - reconciliation has to start / stop exactly the right shards
+		x := rapid.SampledFrom(plainNames).Draw(t, "scn-table")
+		y := rapid.SampledFrom(plainNames).Draw(t, "scn-other")
+		c.Acts = append(c.Acts, Act{Kind: "create", Name: x}, Act{Kind: "create", Name: y})
+		if rapid.Bool().Draw(t, "scn-put") {
+			c.Acts = append(c.Acts, Act{Kind: "put", Name: x, K: []byte("k1"), V: []byte("scn")})
+		}
+		c.Acts = append(c.Acts, Act{Kind: "restore-interrupted", Name: x, N: rapid.IntRange(0, 3).Draw(t, "scn-records")})
+		if rapid.Bool().Draw(t, "scn-delete-other") {
+			c.Acts = append(c.Acts, Act{Kind: "delete", Name: y})
+		}
+		c.Acts = append(c.Acts, Act{Kind: rapid.SampledFrom([]string{"restart", "restart", "reconcile"}).Draw(t, "scn-then"), Name: x})
+	}
 	for i := 0; i < n; i++ {
 		k := rapid.IntRange(0, 19).Draw(t, "kind")
 		a := Act{Name: genName(t, odd)}
@@ -71,6 +86,9 @@ func genActs(t *rapid.T, odd bool) Case {
 		case k == 8:
 			a.Kind = "restore"
 			a.N = rapid.IntRange(0, 4).Draw(t, "records")
+			if rapid.IntRange(0, 2).Draw(t, "interrupted") == 0 {
+				a.Kind = "restore-interrupted" // the stream breaks after N records: the restore fails half way
+			}
 		case k == 9:
 			a.Kind = "list"
 		case k == 10:
@@ -79,8 +97,10 @@ func genActs(t *rapid.T, odd bool) Case {
 			a.Kind = "put"
 			a.K = []byte(rapid.SampledFrom([]string{"k1", "k2", "k3"}).Draw(t, "k"))
 			a.V = []byte(fmt.Sprintf("v%d", i))
-		case k <= 17:
+		case k == 16:
 			a.Kind = "range"
+		case k == 17:
+			a.Kind = "restart" // engine restart (same disks): running shards are gone until the next reconciliation
 		default:
 			a.Kind = "reconcile"
 		}
@@ -128,6 +148,21 @@ type snapFile interface {
 }
 
 type restoreFile struct{ snapFile }
+
+// breakingReader passes `after` records through and then fails like a broken stream.
+type breakingReader struct {
+	r     *restoreFile
+	after int
+	n     int
+}
+
+func (b *breakingReader) Read(p []byte) (int, error) {
+	if b.n >= b.after {
+		return 0, errors.New("stream broken")
+	}
+	b.n++
+	return b.r.Read(p)
+}
 
 const oddNameSig = prop + "/table-name-collides-with-metadata-keyspace"
 
@@ -188,6 +223,40 @@ func runEngineInner(c Case, o *vt.Obs, oddSeen *int) *vt.Failure {
 		}
 		return nil
 	}
+	interrupted, restarted := false, false
+	// checkRunning: the running table shards are exactly the catalogued ones (cluster ids and pending recovery ids)
+	checkRunning := func(step int) *vt.Failure {
+		ts, err := e.GetTables()
+		if err != nil {
+			return vt.Failf(prop+"/list-error", step, "%v", err)
+		}
+		want := map[uint64]string{}
+		for _, t := range ts {
+			if t.ClusterID != 0 {
+				want[t.ClusterID] = t.Name
+			}
+			if t.RecoverID != 0 {
+				want[t.RecoverID] = t.Name + " (recovery shard)"
+			}
+		}
+		nhi := e.NodeHost.GetNodeHostInfo(dragonboat.DefaultNodeHostInfoOption)
+		running := map[uint64]bool{}
+		for _, si := range nhi.ShardInfoList {
+			if si.ShardID > 10000 {
+				running[si.ShardID] = true
+			}
+		}
+		for id, n := range want {
+			if !running[id] {
+				return vt.Failf(prop+"/catalogued-shard-not-running", step, "after reconciliation shard %d of table %s is not running (running: %v)", id, n, running)
+			}
+			delete(running, id)
+		}
+		if len(running) != 0 {
+			return vt.Failf(prop+"/uncatalogued-shard-running", step, "after reconciliation shards %v run although no catalogued table uses them", running)
+		}
+		return nil
+	}
 	for i, a := range c.Acts {
 		if strings.ContainsAny(a.Name, "/*[?") {
 			oddUsed = true
@@ -211,8 +280,9 @@ func runEngineInner(c Case, o *vt.Obs, oddSeen *int) *vt.Failure {
 			if f := checkID(i, fmt.Sprintf("table %q", a.Name), t.ClusterID); f != nil {
 				return f
 			}
-			if err := fx.WaitTable(a.Name, 15*time.Second); err != nil {
-				return vt.Failf(prop+"/created-table-unusable", i, "table %q: %v", a.Name, err)
+			if err := fx.WaitTablePatient(a.Name, 15*time.Second); err != nil {
+				vt.Inconclusive(fmt.Sprintf("C14 created table %q did not become ready: %v", a.Name, err))
+				return nil
 			}
 			cat[a.Name] = &mtable{id: t.ClusterID, content: model.New()}
 			if everHeldData[a.Name] {
@@ -258,8 +328,9 @@ func runEngineInner(c Case, o *vt.Obs, oddSeen *int) *vt.Failure {
 			if f := checkID(i, fmt.Sprintf("restored table %q", a.Name), t.ClusterID); f != nil {
 				return f
 			}
-			if err := fx.WaitTable(a.Name, 15*time.Second); err != nil {
-				return vt.Failf(prop+"/created-table-unusable", i, "restored table %q: %v", a.Name, err)
+			if err := fx.WaitTablePatient(a.Name, 15*time.Second); err != nil {
+				vt.Inconclusive(fmt.Sprintf("C14 restored table %q did not become ready: %v", a.Name, err))
+				return nil
 			}
 			m := model.New()
 			for _, p := range pairs {
@@ -273,6 +344,71 @@ func runEngineInner(c Case, o *vt.Obs, oddSeen *int) *vt.Failure {
 				restoredBetween = true
 			}
 			createsSinceRestore = 0
+		case "restore-interrupted":
+			if !exists {
+				continue // only existing tables: a failed restore of an absent table leaves a half-created record the statement does not rule on
+			}
+			rf, _, err := restoreStream(a.Name, a.N+1, i)
+			if err != nil {
+				vt.Inconclusive("C14 restore stream: " + err.Error())
+				return nil
+			}
+			rerr := e.Restore(a.Name, &breakingReader{r: rf, after: a.N})
+			_ = rf.Close()
+			removeFile(rf.Path())
+			if rerr == nil {
+				return vt.Failf(prop+"/restore-error", i, "restore of %q from a stream that breaks after %d records reported success", a.Name, a.N)
+			}
+			// the table is unchanged: same id, same content; the id taken for the recovery shard is burnt
+			t, err := e.GetTable(a.Name)
+			if err != nil || t.ClusterID != cat[a.Name].id {
+				return vt.Failf(prop+"/lookup-differs", i, "after a failed restore table %q has id %d (err %v), before %d", a.Name, t.ClusterID, err, cat[a.Name].id)
+			}
+			if t.RecoverID != 0 {
+				if t.RecoverID <= maxID {
+					return vt.Failf(prop+"/id-not-fresh", i, "recovery shard id %d of %q is not greater than every id assigned before (%d)", t.RecoverID, a.Name, maxID)
+				}
+				maxID = t.RecoverID
+				interrupted = true
+			}
+			got, err := replfx.ReadAll(e, a.Name, true)
+			if err != nil {
+				return vt.Failf(prop+"/table-unreadable", i, "table %q after a failed restore: %v", a.Name, err)
+			}
+			if err := same(got, cat[a.Name].content.Pairs); err != nil {
+				return vt.Failf(prop+"/content-differs", i, "table %q changed by a failed restore: %v", a.Name, err)
+			}
+		case "restart":
+			if err := fx.Restart(); err != nil {
+				vt.Inconclusive("C14 engine restart: " + err.Error())
+				return nil
+			}
+			e = fx.E
+			if err := e.Manager.VerifReconcile(); err != nil {
+				return vt.Failf(prop+"/reconcile-error", i, "reconciliation after an engine restart: %v", err)
+			}
+			if f := checkRunning(i); f != nil {
+				return f
+			}
+			// timing-free: the shard of every table the model holds has been started (checkRunning compares with the engine's own listing)
+			{
+				running := map[uint64]bool{}
+				for _, si := range e.NodeHost.GetNodeHostInfo(dragonboat.DefaultNodeHostInfoOption).ShardInfoList {
+					running[si.ShardID] = true
+				}
+				for n, mt := range cat {
+					if !running[mt.id] {
+						return vt.Failf(prop+"/catalogued-shard-not-running", i, "after restart + reconciliation shard %d of table %q is not running", mt.id, n)
+					}
+				}
+			}
+			for n := range cat {
+				if err := fx.WaitTablePatient(n, 20*time.Second); err != nil {
+					vt.Inconclusive(fmt.Sprintf("C14 table %q did not become ready after restart + reconciliation: %v", n, err))
+					return nil
+				}
+			}
+			restarted = true
 		case "list":
 			ts, err := e.GetTables()
 			if err != nil {
@@ -335,22 +471,8 @@ func runEngineInner(c Case, o *vt.Obs, oddSeen *int) *vt.Failure {
 			if err := e.Manager.VerifReconcile(); err != nil {
 				return vt.Failf(prop+"/reconcile-error", i, "%v", err)
 			}
-			// running table shards == catalogued shards
-			nhi := e.NodeHost.GetNodeHostInfo(dragonboat.DefaultNodeHostInfoOption)
-			running := map[uint64]bool{}
-			for _, si := range nhi.ShardInfoList {
-				if si.ShardID > 10000 {
-					running[si.ShardID] = true
-				}
-			}
-			for n, mt := range cat {
-				if !running[mt.id] {
-					return vt.Failf(prop+"/catalogued-shard-not-running", i, "after reconciliation shard %d of table %q is not running", mt.id, n)
-				}
-				delete(running, mt.id)
-			}
-			if len(running) != 0 {
-				return vt.Failf(prop+"/uncatalogued-shard-running", i, "after reconciliation shards %v run although no catalogued table uses them", running)
+			if f := checkRunning(i); f != nil {
+				return f
 			}
 		}
 	}
@@ -363,7 +485,16 @@ func runEngineInner(c Case, o *vt.Obs, oddSeen *int) *vt.Failure {
 	if oddUsed {
 		o.Label("path-or-glob-like-name")
 	}
-	o.NonTrivial = recreated || restoredBetween
+	if interrupted {
+		o.Label("interrupted-restore")
+	}
+	if restarted {
+		o.Label("engine-restart")
+	}
+	if interrupted && restarted {
+		o.Label("restart-with-pending-recovery-shard")
+	}
+	o.NonTrivial = recreated || restoredBetween || (interrupted && restarted)
 	o.Describe = func() string { return fmt.Sprintf("%+v", c.Acts) }
 	return nil
 }
